@@ -19,7 +19,7 @@ def props_of(ev):
     base, _, rest = sym.partition(':')
     fl = ev.flags
     P = set()
-    raw = 'raw' in fl or any(o.startswith('Raw(') or 'Raw(' in o for o in ev.operands)
+    raw = ('raw' in fl or any(o.startswith('Raw(') or 'Raw(' in o for o in ev.operands)) and 'foreign-group' not in fl
     emptyish = 'empty-operand' in fl or 'empty-expected' in fl or 'empty-spelling' in fl
     if base == 'crash':
         P.add('C03')
@@ -370,7 +370,18 @@ def wl_c08(tier, seed, shard, nshards):
                 yield {'prog': G.OPN('cat', G.OPN('cap', G.L('q'), name=nm), {'o': 'bref', 'r': nm}), 'form': f, 'w': 'W8r'}
                 yield {'prog': G.OPN('cat', G.OPN('cap', G.L('q'), name=nm), G.OPN('cond', G.L('y'), name=nm)), 'form': f, 'w': 'W8r'}
                 yield {'prog': G.OPN('cat', G.OPN('opt', G.OPN('cap', G.L('q'), name=nm)), G.OPN('cond', G.L('y'), G.L('n'), name=nm)), 'form': f, 'w': 'W8r'}
-    yield from take(itertools.chain(det(), renames(), refs(), (it for it in G.deep_programs() if it['prog']['o'] in ('cap', 'grp'))), shard, nshards)
+    def foreign():
+        # groups the library can only wrap (other inline flags, atomic groups), handed over raw
+        for r in ('(?s:.)', '(?-i:a)', '(?ims:aB)', '(?>a)', '(?s:(?i:a))', '(?>(?i:ab))', '(?s:x(?:b))', '(?m:^a)', '(?s:(a)b)'):
+            x = G.RAW(r)
+            for f in 'cm':
+                yield {'prog': G.OPN('grp', x), 'form': f, 'w': 'W8f'}
+                yield {'prog': G.OPN('grp', x, ci=True), 'form': f, 'w': 'W8f'}
+                yield {'prog': G.OPN('cap', x), 'form': f, 'w': 'W8f'}
+                yield {'prog': G.OPN('cap', x, name='fg'), 'form': f, 'w': 'W8f'}
+                yield {'prog': G.OPN('cat', G.OPN('grp', x, ci=True), G.L('z')), 'form': f, 'w': 'W8f'}
+                yield {'prog': G.OPN('plus', G.OPN('cap', x)), 'form': f, 'w': 'W8f'}
+    yield from take(itertools.chain(det(), renames(), refs(), foreign(), (it for it in G.deep_programs() if it['prog']['o'] in ('cap', 'grp'))), shard, nshards)
     r = shard_rnd(seed, shard, 8)
     n = (5000 if tier == 'quick' else 50000) // nshards
     for _ in range(n):
@@ -434,6 +445,14 @@ def wl_c09(tier, seed, shard, nshards):
              G.OPN('fol', G.MT('Date'), G.L('z')), G.OPN('male', G.OPN('cat', {'o': 'wb'}, G.L('ab'))), G.OPN('mae', G.OPN('npre', G.L('ab'), G.L('c'))),
              G.OPN('fol', G.OPN('cat', {'o': 'nwb'}, G.L('ab')), G.L('z')), G.OPN('mas', G.OPN('nfol', G.L('ab'), G.L('c')))]
     yield from take(({'prog': q(x), 'form': f, 'w': 'W9long'} for x in longs for q in quants for f in 'cm'), shard, nshards)
+    # a literal parenthesis made optional / repeated, followed by what then reads like a lookaround opener
+    looks = []
+    for opn in ('opt', 'star', 'plus'):
+        for tail in ('=)', '!)', '<=)', '<!)', '=a)', ':)', 'P<n>)', '#)', '(1)a)'):
+            looks.append(G.OPN('cat', G.OPN(opn, G.L('(')), G.L(tail)))
+            looks.append(G.OPN('cat', G.L('x'), G.OPN(opn, G.L('(')), G.L(tail)))
+            looks.append(G.OPN('cat', G.OPN(opn, G.L('(')), G.L(tail[:-1]), G.CLS('AnyDigit'), G.L(')')))
+    yield from take(({'prog': q(x), 'form': f, 'w': 'W9paren'} for x in looks for q in quants for f in 'cm'), shard, nshards)
     r = shard_rnd(seed, shard, 9)
     n = (3000 if tier == 'quick' else 40000) // nshards
     for _ in range(n):
